@@ -51,6 +51,7 @@ pub fn blocks(thorough: bool) -> Vec<Block> {
         b.push(Block::new(u_long_runs(40), thr(&[0, D, X], &[(1, 1), (1, 2), (3, 1)]), "r x {{}, d, x} x {(1,1),(1,2),(3,1)}"));
         b.push(Block::new(u_many(30), thr(&[0, D], &[(1, 1)]), "r x {{}, d}"));
         b.push(Block::new(u_nested_rep(), thr(&[0, X], &[(1, 1)]), "r x {{}, x}"));
+        b.push(Block::new(u_prefix_suffix2(4), thr(&[0], &[(1, 1)]), "r"));
         b.push(Block::new(u_kind_triples(), thr(&[0, X], &[(1, 1)]), "r x {{}, x}"));
         b.push(Block::new(u_corpus("U_longstr", verif_seed() + 7, 4_000, &["a", "b", "c"], (1, 1), (40, 90)), thr(&[0], &[(1, 1)]), "r (corpus of long single strings: dozens of repetition ranges each)"));
     } else {
@@ -75,7 +76,7 @@ pub fn blocks(thorough: bool) -> Vec<Block> {
         b.push(Block::new(Universe::new("U_tok{\\d,1,\\,d}", &["\\d", "1", "\\", "d"], 4, 2, false), thr(&[D, D | W, NW, D | NS], &[(1, 1), (2, 1)]), "r x {d, d+w, W, d+S} x {(1,1),(2,1)}"));
         b.push(Block::new(u_kind_pairs(4, 1, false), thr(&[0, X, E], &[(1, 1), (1, 2)]), "r x {{}, x, e} x {(1,1),(1,2)}"));
         b.push(Block::new(u_long_rep(46), thr(&[0, X, I, W], &grid22), "r x {{}, x, i, w} x 6 thresholds"));
-        b.push(Block::new(u_long_runs(300), thr(&[0, X], &grid22), "r x {{}, x} x 6 thresholds"));
+        b.push(Block::new(u_long_runs(140), thr(&[0, X], &[(1, 1), (1, 2), (3, 1)]), "r x {{}, x} x {(1,1),(1,2),(3,1)}"));
         b.push(Block::new(u_long_runs(60), thr(&[D, W, I], &grid22), "r x {d, w, i} x 6 thresholds"));
         b.push(Block::new(u_many(120), thr(&[0, D, X], &[(1, 1), (2, 1)]), "r x {{}, d, x} x {(1,1),(2,1)}"));
         b.push(Block::new(u_nested_rep(), thr(&[0, X, E, I, D, G], &grid22), "r x {{}, x, e, i, d, g} x 6 thresholds"));
